@@ -440,8 +440,30 @@ func (g *vfGen) operand(depth int, inField bool) Expr {
 
 // expr writes an arithmetic expression (what a SELECT field may hold).
 func (g *vfGen) expr(depth int, inField bool) Expr {
-	if depth <= 0 || g.pick(2) == 0 {
+	if depth <= 0 {
 		return g.operand(depth, inField)
+	}
+	switch g.pick(3) {
+	case 0:
+		return g.operand(depth, inField)
+	case 2:
+		// three operands, two operators, no parentheses: the grouping is decided by the
+		// five precedence levels (reference grouping shared with the C03 harness)
+		var xs []Expr
+		var ops []Token
+		var lv []int
+		for i := 0; i < 3; i++ {
+			if i > 0 {
+				op := vfArithOps[vfChoice(len(vfArithOps))]
+				g.sp()
+				g.raw(op.sp)
+				g.sp()
+				ops = append(ops, op.t)
+				lv = append(lv, c03Level(op.t))
+			}
+			xs = append(xs, g.varref())
+		}
+		return c03Ref(xs, ops, lv)
 	}
 	l := g.operand(depth-1, inField)
 	op := vfArithOps[g.pick(len(vfArithOps))]
